@@ -250,3 +250,81 @@ R.contract(
                        "enc_eq(records, pre_loop(records)) and len(aw_calls) == 0"]}},
     locals={"lines": "List[str]"},
 )
+
+# append_jsonl: suppressed by the feature guard, else captured by the active LogMux, else written through --
+# exactly one of the three, never two, never none
+PAIRS = "List[Tuple[str, Dict[str, Json]]]"
+R.objtype("LogMux", {"_buf": PAIRS}, cls=("clematis/engine/util/logmux.py", "LogMux"))
+R.optobj("OptLogMux", "LogMux")
+MUXBUF = "ctx_LOG_MUX._buf"
+MUX_SAME = "enc_eq(" + MUXBUF + ", old(" + MUXBUF + "))"
+NM = "os_basename(filename)"
+R.contract(
+    LOG + "append_jsonl", "C16", callee=False,
+    types={"filename": "str", "record": REC, "feature_guard": "Optional[bool]"},
+    ghost=dict(FS_GHOST, ctx_LOG_MUX=("OptLogMux", "any"), rec0=(REC, "any")),
+    setup=["rec0 = record"],
+    ensures=[
+        ("guard-false-suppresses", "implies(feature_guard == False, len(fs_writes) == 0 and len(fs_opens) == 0 and " + MUX_SAME + ")"),
+        ("captured-once-when-mux-active-and-not-written",
+         "implies(feature_guard != False and present(ctx_LOG_MUX), len(fs_writes) == 0 and len(fs_opens) == 0 and "
+         " len(" + MUXBUF + ") == old(len(" + MUXBUF + ")) + 1 and "
+         " forall(i, 0 <= i < old(len(" + MUXBUF + ")), enc_eq(" + MUXBUF + "[i], old(" + MUXBUF + ")[i])) and "
+         " " + MUXBUF + "[len(" + MUXBUF + ") - 1][0] == filename and "
+         " seq_eq(" + MUXBUF + "[len(" + MUXBUF + ") - 1][1], norm_id(" + NM + ", rec0)))"),
+        ("written-through-once-when-no-mux",
+         "implies(feature_guard != False and not present(ctx_LOG_MUX), len(fs_writes) == 1 and len(fs_opens) == 1 and "
+         " fs_opens[0][1] == 'ab' and fs_writes[0][0] == os_join(logs_dir_path(), filename) and "
+         # the write-through path normalises twice (append_jsonl, then _append_jsonl_unbuffered); N is idempotent
+         " " + W0 + " == " + LEGACY % ("norm_id(" + NM + ", norm_id(" + NM + ", rec0))") + " + '\\n')"),
+        ("record-not-mutated", "seq_eq(rec0, old(record))"),
+    ],
+    raises=["OSError"],
+    ensures_exc=[("fails-only-on-write-through",
+                  "feature_guard != False and not present(ctx_LOG_MUX) and len(fs_writes) == 0")],
+)
+
+# ------------------------------------------------------------------ clematis/engine/util/logmux.py
+MUX = "clematis/engine/util/logmux.py:"
+R.contract(MUX + "LogMux.write", "C16", callee=False,
+           types={"self": "LogMux", "stream": "str", "obj": REC},
+           ensures=[("appended-in-call-order",
+                     "len(self._buf) == old(len(self._buf)) + 1 and "
+                     "forall(i, 0 <= i < old(len(self._buf)), enc_eq(self._buf[i], old(self._buf)[i])) and "
+                     "self._buf[len(self._buf) - 1][0] == stream and enc_eq(self._buf[len(self._buf) - 1][1], obj)")],
+           raises="none")
+R.contract(MUX + "LogMux.dump", "C16", callee=False,
+           types={"self": "LogMux"}, returns=PAIRS,
+           ensures=[("copy-in-order", "enc_eq(result, self._buf) and not same_obj(result, self._buf)"),
+                    ("buffer-kept", "enc_eq(self._buf, old(self._buf))")],
+           raises="none")
+R.contract(MUX + "LogMux.clear", "C16", callee=False,
+           types={"self": "LogMux"}, ensures=[("emptied", "len(self._buf) == 0")], raises="none")
+
+# flush / write_or_buffer: the writer they call is append_jsonl (verified above); here its calls are recorded
+AJ = R.contract(LOG + "append_jsonl", "C16", verify=False, callee=False, name="append_jsonl(assumed)",
+                types={"filename": "str", "record": REC, "feature_guard": "Optional[bool]"},
+                raises=["OSError"],
+                effects=["aj_calls.append((filename, record))"])
+R.contract(MUX + "flush", "C16", callee=False,
+           types={"pairs": PAIRS},
+           ghost={"aj_calls": (PAIRS, "empty")},
+           funcs={LOG + "append_jsonl": AJ},
+           ensures=[("every-pair-written-once-in-order",
+                     "len(aj_calls) == len(pairs) and forall(j, 0 <= j < len(pairs), enc_eq(aj_calls[j], pairs[j]))"),
+                    ("pairs-untouched", "enc_eq(pairs, old(pairs))")],
+           raises=["OSError"],
+           ensures_exc=[("prefix-written-in-order",
+                         "len(aj_calls) < len(pairs) and forall(j, 0 <= j < len(aj_calls), enc_eq(aj_calls[j], pairs[j]))")],
+           loops={0: {"inv": ["len(aj_calls) == _i", "forall(j, 0 <= j < _i, enc_eq(aj_calls[j], pairs[j]))",
+                              "enc_eq(pairs, pre_loop(pairs))"]}})
+R.contract(MUX + "write_or_buffer", "C16", callee=False,
+           types={"stream": "str", "obj": REC},
+           ghost={"aj_calls": (PAIRS, "empty"), "ctx_LOG_MUX": ("OptLogMux", "any")},
+           funcs={LOG + "append_jsonl": AJ},
+           ensures=[("buffered-xor-written",
+                     "ite(present(ctx_LOG_MUX), len(aj_calls) == 0 and len(" + MUXBUF + ") == old(len(" + MUXBUF + ")) + 1 and "
+                     "   " + MUXBUF + "[len(" + MUXBUF + ") - 1][0] == stream and enc_eq(" + MUXBUF + "[len(" + MUXBUF + ") - 1][1], obj), "
+                     "   len(aj_calls) == 1 and aj_calls[0][0] == stream and enc_eq(aj_calls[0][1], obj) and " + MUX_SAME + ")")],
+           raises=["OSError"],
+           ensures_exc=[("fails-only-without-mux", "not present(ctx_LOG_MUX) and len(aj_calls) == 0")])
